@@ -8,6 +8,7 @@ pub mod nd;
 pub mod env;
 
 pub mod c05;
+pub mod c13;
 #[cfg(any(kani, feature = "compiler"))]
 pub mod c07;
 #[cfg(any(kani, feature = "compiler"))]
@@ -26,9 +27,10 @@ pub mod tcreplay;
 
 /// All replayable harnesses (native build only).
 #[cfg(not(kani))]
-pub fn registry() -> Vec<(&'static str, fn(&mut nd::BytesNd))> {
+pub fn registry() -> Vec<(&'static str, fn(&mut nd::BytesNd), fn(&mut nd::RandNd))> {
     let mut v = Vec::new();
     v.extend(c05::registry());
+    v.extend(c13::registry());
     #[cfg(feature = "compiler")]
     {
         v.extend(c07::registry());
